@@ -73,19 +73,191 @@ BENIGN_VERBS = {"Mutate", "Filter", "Select", "Rename", "Arrange", "GroupBy", "U
 UNREACHABLE_IN_BENIGN = {"LIMITED", "WINDOWED", "CONST"}
 
 
+class _SubstNames(ast.NodeTransformer):
+    def __init__(self, mapping):
+        self.mapping = mapping
+
+    def visit_Name(self, node):
+        if node.id in self.mapping and isinstance(node.ctx, ast.Load):
+            import copy
+
+            return copy.deepcopy(self.mapping[node.id])
+        return node
+
+
+def _truth_of_helper(h, args_map, methods, depth):
+    """expression that is true exactly when helper `h` returns a truthy value, or None:
+    `return E` -> E;  `for v in P: if C: return True` .. `return False` -> any(C for v in P)"""
+    import copy
+
+    body = [s_ for s_ in h.body if not (isinstance(s_, ast.Expr) and isinstance(s_.value, ast.Constant))]
+    expr = None
+    if len(body) == 1 and isinstance(body[0], ast.Return) and body[0].value is not None:
+        expr = copy.deepcopy(body[0].value)
+    elif (
+        len(body) == 2
+        and isinstance(body[0], ast.For)
+        and isinstance(body[1], ast.Return)
+        and isinstance(body[1].value, ast.Constant)
+        and body[1].value.value is False
+    ):
+        lp = body[0]
+        conds = []
+        cur = lp.body
+        while len(cur) == 1 and isinstance(cur[0], ast.If) and not cur[0].orelse:
+            conds.append(cur[0].test)
+            cur = cur[0].body
+        if len(cur) == 1 and isinstance(cur[0], ast.Return) and isinstance(cur[0].value, ast.Constant) and cur[0].value.value is True and conds:
+            test = conds[0] if len(conds) == 1 else ast.BoolOp(op=ast.And(), values=conds)
+            expr = ast.Call(
+                func=ast.Name(id="any", ctx=ast.Load()),
+                args=[ast.GeneratorExp(elt=copy.deepcopy(test), generators=[ast.comprehension(target=copy.deepcopy(lp.target), iter=copy.deepcopy(lp.iter), ifs=[], is_async=0)])],
+                keywords=[],
+            )
+    if expr is None:
+        return None
+    expr = _SubstNames(args_map).visit(expr)
+    ast.fix_missing_locations(expr)
+    return _inline_helper_tests(expr, methods, depth + 1)
+
+
+def _bind(h, call):
+    params = [a.arg for a in h.args.args]
+    if params and params[0] in ("self", "cls"):
+        params = params[1:]
+    if len(call.args) > len(params) or any(isinstance(a, ast.Starred) for a in call.args):
+        return None
+    m = dict(zip(params, call.args))
+    for k in call.keywords:
+        if k.arg is None or k.arg in m:
+            return None
+        m[k.arg] = k.value
+    if len(m) < len(params) - len(h.args.defaults):
+        return None
+    return m
+
+
+def _inline_helper_tests(test, methods, depth=0):
+    """calls to boolean helper methods of the same class inside a test are replaced by the helper's truth condition"""
+    if depth > 3:
+        return test
+
+    class T(ast.NodeTransformer):
+        def visit_Call(self, node):
+            self.generic_visit(node)
+            f = node.func
+            if isinstance(f, ast.Attribute) and isinstance(f.value, ast.Name) and f.value.id in ("self", "cls") and f.attr in methods:
+                m = _bind(methods[f.attr], node)
+                if m is not None:
+                    e = _truth_of_helper(methods[f.attr], m, methods, depth)
+                    if e is not None:
+                        return e
+            return node
+
+    import copy
+
+    out = T().visit(copy.deepcopy(test))
+    ast.fix_missing_locations(out)
+    return out
+
+
+def guard_paths(func, methods):
+    """[(return node, reason expr, [(test, polarity)])] for every `return <reason>` reachable in `func`, following
+    `return self._helper(..)` / `reason = self._helper(..); if reason ..: return reason`, loops with early returns
+    (`for x in P: if C: return r` contributes `any(C for x in P)`) and local booleans (`has_limit = self.limit != 0`)."""
+    import copy
+
+    out = []
+
+    def walk(stmts, conds, subst, loops, owner, depth):
+        pending_helper = {}  # local name -> (helper, args_map) for `reason = self._h(..)`
+        for st in stmts:
+            if isinstance(st, ast.Assign) and len(st.targets) == 1 and isinstance(st.targets[0], ast.Name):
+                v = st.value
+                if (
+                    isinstance(v, ast.Call) and isinstance(v.func, ast.Attribute) and isinstance(v.func.value, ast.Name)
+                    and v.func.value.id in ("self", "cls") and v.func.attr in methods
+                ):
+                    m = _bind(methods[v.func.attr], v)
+                    if m is not None:
+                        pending_helper[st.targets[0].id] = (methods[v.func.attr], {k: _SubstNames(subst).visit(copy.deepcopy(a)) for k, a in m.items()})
+                        continue
+                subst = dict(subst)
+                subst[st.targets[0].id] = _SubstNames(subst).visit(copy.deepcopy(v))
+                continue
+            if isinstance(st, ast.If):
+                t = _SubstNames(subst).visit(copy.deepcopy(st.test))
+                ast.fix_missing_locations(t)
+                # `if reason is not None: return reason` / `if reason: return reason`
+                names_in_test = {n.id for n in ast.walk(st.test) if isinstance(n, ast.Name)}
+                hit = [nm for nm in pending_helper if nm in names_in_test]
+                if hit and any(isinstance(x, ast.Return) and isinstance(x.value, ast.Name) and x.value.id == hit[0] for x in st.body):
+                    h, amap = pending_helper[hit[0]]
+                    if depth < 3:
+                        walk(h.body, conds, amap, loops, h, depth + 1)
+                    continue
+                t = _inline_helper_tests(t, methods)
+                walk(st.body, conds + [(t, True)], subst, loops, owner, depth)
+                walk(st.orelse, conds + [(t, False)], subst, loops, owner, depth)
+                continue
+            if isinstance(st, ast.For):
+                it = _SubstNames(subst).visit(copy.deepcopy(st.iter))
+                walk(st.body, conds, subst, loops + [(len(conds), copy.deepcopy(st.target), it)], owner, depth)
+                continue
+            if isinstance(st, ast.Return):
+                v = st.value
+                if v is None or (isinstance(v, ast.Constant) and v.value is None):
+                    out.append((st, None, list(conds)))
+                    continue
+                if (
+                    isinstance(v, ast.Call) and isinstance(v.func, ast.Attribute) and isinstance(v.func.value, ast.Name)
+                    and v.func.value.id in ("self", "cls") and v.func.attr in methods and depth < 3
+                ):
+                    m = _bind(methods[v.func.attr], v)
+                    if m is not None:
+                        h = methods[v.func.attr]
+                        walk(h.body, conds, {k: _SubstNames(subst).visit(copy.deepcopy(a)) for k, a in m.items()}, loops, h, depth + 1)
+                        continue
+                if isinstance(v, ast.Name) and v.id in pending_helper and depth < 3:
+                    h, amap = pending_helper[v.id]
+                    walk(h.body, conds, amap, loops, h, depth + 1)
+                    continue
+                # conditions gathered inside enclosing loops become `any(<conds> for target in iter)`
+                cs = list(conds)
+                for start, target, it in reversed(loops):
+                    inner = [t for t, pol in cs[start:] if pol]
+                    neg = [ast.UnaryOp(op=ast.Not(), operand=t) for t, pol in cs[start:] if not pol]
+                    allc = inner + neg
+                    body = allc[0] if len(allc) == 1 else ast.BoolOp(op=ast.And(), values=allc) if allc else ast.Constant(value=True)
+                    anyc = ast.Call(func=ast.Name(id="any", ctx=ast.Load()), args=[ast.GeneratorExp(elt=body, generators=[ast.comprehension(target=target, iter=it, ifs=[], is_async=0)])], keywords=[])
+                    ast.fix_missing_locations(anyc)
+                    cs = cs[:start] + [(anyc, True)]
+                out.append((st, v, cs))
+                continue
+            # other compound statements: look inside without adding conditions
+            for field in ("body", "orelse", "finalbody"):
+                blk = getattr(st, field, None)
+                if isinstance(blk, list) and blk and isinstance(blk[0], ast.stmt):
+                    walk(blk, conds, subst, loops, owner, depth)
+
+    walk(func.body, [], {}, [], func, 0)
+    return out
+
+
 def parse_guards(sym, module, func) -> tuple[list[Guard], ast.AST | None]:
     subject = func.args.args[1].arg
     guards = []
     polars_exit = None
-    for n in ast.walk(func):
-        if not isinstance(n, ast.Return):
-            continue
-        if n.value is None or (isinstance(n.value, ast.Constant) and n.value.value is None):
-            tests = dominating_tests(n, func)
+    # methods of the same class (helpers the guards may have been moved into)
+    methods = {}
+    p = getattr(func, "_parent", None)
+    if isinstance(p, ast.ClassDef):
+        methods = {m.name: m for m in p.body if isinstance(m, ast.FunctionDef) and m is not func}
+    for n, reason_expr, tests in guard_paths(func, methods):
+        if reason_expr is None:
             if tests and any("backend_name" in norm(t) and "polars" in norm(t) for t, _ in tests):
                 polars_exit = n
             continue
-        tests = [(t, p) for t, p in dominating_tests(n, func)]
         verbs: set[str] | None = None
         atoms: set[str] = set()
         scope = None
@@ -120,7 +292,7 @@ def parse_guards(sym, module, func) -> tuple[list[Guard], ast.AST | None]:
             for h in ("full", "left", "inner"):
                 if f"'{h}'" in txt and ".how" in txt:
                     hows.add(h)
-        reason = norm(n.value)[:80]
+        reason = norm(reason_expr)[:80]
         g = Guard(n, verbs, atoms, scope, fnflag, reason, tests)
         g.how = hows
         guards.append(g)
